@@ -89,6 +89,8 @@ def seq_site(t):
     n = F.callee_name(t)
     short = n.rsplit("::", 1)[1].split("::<")[0] if "::" in n else n
     if "ops::Index" in n and short in ("index", "index_mut"):
+        if "HashMap" in n or "BTreeMap" in n:
+            return None   # a keyed lookup, not a positional one: a missing key is a panic path of the map model
         return short
     if short in PANICKY_SEQ and ("slice" in n or "Vec" in n or "<impl [T]>" in n):
         return short
@@ -118,6 +120,10 @@ def enumerate_index_provenance(body, idx_op, depth=0, seen=None):
             n = F.callee_name(t)
             if n.endswith("::next") and "Enumerate" in " ".join(t["f"].get("gargs", []) + [n]):
                 found = True
+                continue
+            if n.endswith("::next") and "std::ops::Range<usize>" in " ".join(t["f"].get("gargs", [])) and any(
+                    b2["term"]["k"] == "call" and F.callee_name(b2["term"]).endswith("::len") for b2 in body["blocks"]):
+                found = True   # `for i in 0..v.len()`: an index below the length taken in this function
                 continue
             if n.endswith(" as std::ops::Try>::branch") or n.endswith("::unwrap") or n.endswith("::expect"):
                 if t["args"] and enumerate_index_provenance(body, t["args"][0], depth + 1, seen):
@@ -660,7 +666,7 @@ def loops(ctx, cone):
                 continue
             nfree += 1
             v = C10.variant(b, lp)
-            v2 = counting_variant(b, lp)
+            v2 = counting_variant(b, lp) or bool(C10.popping_variant(b, lp))
             if (v is None or v[0] != "ok") and not v2:
                 vs = C10.semantic_variant(ctx, b, lp)
                 if vs is None or vs[0] != "ok":
